@@ -249,7 +249,7 @@ impl Profile {
             w_drain: 0,
             w_change: 0,
             single: true,
-            w_reinit: 0,
+            w_reinit: 1,
             w_exhaust: 10,
             min_steps: 40,
             max_steps: 200,
@@ -360,7 +360,9 @@ pub fn gen_config(rng: &mut Rng, p: &Profile) -> Config {
                 } else {
                     0
                 },
-            alloc_all: false,
+            // one in three starts from the allocate-all state (memory exhausted from the start,
+            // every tree labelled with the default class): frames are then freed one by one
+            alloc_all: rng.chance(1, 3),
             kind: ClassKind::Simple,
             slots: vec![1, if rng.chance(1, 2) { 0 } else { 1 }],
         };
@@ -626,7 +628,8 @@ impl Run<'_> {
             }
             2 => Step::PutHeld {
                 k: rng.below(self.ledger.held.len()),
-                sub: None,
+                // C11 (allocate-all start): base frames of the held huge blocks
+                sub: if p.single { Some((0, rng.below(HUGE_FRAMES))) } else { None },
                 class,
                 // C11: each frame is freed either through the slot or with no slot
                 slot: if p.single && rng.chance(1, 2) {
